@@ -10,10 +10,11 @@ Import ListNotations.
    need_spec = false, need_cover = true under the finding's FailKey; all other cases have both;
    sup = what triangulation.SuperTriangle returned for the same input, in HALF units (the middle
    of the bounding box may be a half integer); attr_lens = the length of every vertex attribute of
-   the returned mesh (Position, TexCoord, ...) *)
+   the returned mesh (Position, TexCoord, ...); caller_after = the caller's own point slice as it is
+   after the call (the slice may have spare capacity; pts is the harness' private copy of the input) *)
 Inductive case :=
 | CTri (use_model need_spec need_cover : bool) (pts : list (Z * Z)) (tris : list (nat * nat * nat))
-       (pos : list (Z * Z * Z)) (sup : list (Z * Z)) (attr_lens : list nat).
+       (pos : list (Z * Z * Z)) (sup : list (Z * Z)) (attr_lens : list nat) (caller_after : list (Z * Z)).
 
 Definition qpts (pts : list (Z * Z)) : list pt := map (fun p => (inject_Z (fst p), inject_Z (snd p))) pts.
 Definition tri_inb (t : tri) (l : list tri) : bool := existsb (tri_eqb t) l.
@@ -37,7 +38,7 @@ Fixpoint sup_okb (m : list pt) (sup : list (Z * Z)) : bool :=
    run of the model meets the hypotheses of bw_delaunay_partial on this input *)
 Definition corr_ok (c : case) : bool :=
   match c with
-  | CTri m _ _ pts tris _ sup _ =>
+  | CTri m _ _ pts tris _ sup _ _ =>
       if m then
         match bw (qpts pts) with
         | Some ts => let ts := map canon ts in let tris := map canon tris in
@@ -56,14 +57,24 @@ Fixpoint pos_okb (pts : list (Z * Z)) (pos : list (Z * Z * Z)) : bool :=
   | _, _ => false
   end.
 
+(* the input the caller still holds is the input it passed (vertex i = input point i is a statement
+   about the caller's points) *)
+Fixpoint same_ptsb (pts after : list (Z * Z)) : bool :=
+  match pts, after with
+  | [], [] => true
+  | (x, y) :: ps, (a, b) :: qs => (a =? x)%Z && (b =? y)%Z && same_ptsb ps qs
+  | _, _ => false
+  end.
+
 (* the property on the implementation's output: certified 4-conjunct checker, vertex i = input
    point i at (x,0,y) with exactly one vertex per input point in every attribute, and
    "triangulation of the input": every point used, 2n-2-h triangles, and
    the triangle areas add up to the area of the convex hull (exact in Q) *)
 Definition prop_ok (c : case) : bool :=
   match c with
-  | CTri _ spec cover pts tris pos _ alens =>
+  | CTri _ spec cover pts tris pos _ alens after =>
       let q := qpts pts in
-      (if spec then pos_okb pts pos && forallb (Nat.eqb (length pts)) alens && delaunayb q tris else true) &&
+      (if spec then pos_okb pts pos && forallb (Nat.eqb (length pts)) alens && same_ptsb pts after &&
+                    delaunayb q tris else true) &&
       (if cover then completeb q tris && coverb q tris else true)
   end.
